@@ -23,6 +23,7 @@ type fmtCall struct {
 	Call      ssa.CallInstruction
 	Kind      string // printf print println scanf scanln scan sprintf
 	Format    string
+	Formats   []string // every constant the format operand can be (more than one when it is a phi of constants)
 	HasFormat bool
 	Stream    ssa.Value
 	Args      []ssa.Value // the operands (interface wrappers removed)
@@ -83,8 +84,57 @@ func variadicArgs(v ssa.Value) ([]ssa.Value, bool) {
 	return out, true
 }
 
+// constFormats resolves a format operand to the set of constant strings it can
+// be: a constant, or a (nested) phi all of whose leaves are constant strings
+// (`format := "%g "; if last { format = "%g" }`).
+func constFormats(v ssa.Value) ([]string, bool) {
+	var out []string
+	seen := map[ssa.Value]bool{}
+	var visit func(v ssa.Value) bool
+	visit = func(v ssa.Value) bool {
+		if seen[v] {
+			return true
+		}
+		seen[v] = true
+		switch x := v.(type) {
+		case *ssa.Const:
+			if x.Value == nil || x.Value.Kind() != constant.String {
+				return false
+			}
+			s := constant.StringVal(x.Value)
+			for _, o := range out {
+				if o == s {
+					return true
+				}
+			}
+			out = append(out, s)
+			return true
+		case *ssa.Phi:
+			for _, e := range x.Edges {
+				if !visit(e) {
+					return false
+				}
+			}
+			return true
+		}
+		return false
+	}
+	if !visit(v) || len(out) == 0 {
+		return nil, false
+	}
+	return out, true
+}
+
 // fmtCalls lists the fmt print/scan calls of fn in block/instruction order.
+// A call whose format is not one constant is reported as undecided.
 func fmtCalls(fn *ssa.Function) (out []fmtCall, undecided []ssa.CallInstruction) {
+	return fmtCallsAlt(fn, false)
+}
+
+// fmtCallsAlt: with alt, a format operand that is a phi of constant strings is
+// accepted; the call is listed once with all alternatives in Formats (Format
+// is the first one). Callers that pass alt must decide every alternative.
+func fmtCallsAlt(fn *ssa.Function, alt bool) (out []fmtCall, undecided []ssa.CallInstruction) {
 	Instrs(fn, func(_ *ssa.BasicBlock, _ int, in ssa.Instruction) {
 		c, ok := in.(ssa.CallInstruction)
 		if !ok {
@@ -103,12 +153,12 @@ func fmtCalls(fn *ssa.Function) (out []fmtCall, undecided []ssa.CallInstruction)
 			i = 1
 		}
 		if kind == "printf" || kind == "scanf" || kind == "sprintf" || kind == "sscanf" {
-			k, isC := args[i].(*ssa.Const)
-			if !isC || k.Value == nil || k.Value.Kind() != constant.String {
+			fs, isC := constFormats(args[i])
+			if !isC || (len(fs) > 1 && !alt) {
 				undecided = append(undecided, c)
 				return
 			}
-			fc.Format, fc.HasFormat = constant.StringVal(k.Value), true
+			fc.Format, fc.Formats, fc.HasFormat = fs[0], fs, true
 			i++
 		}
 		va, ok := variadicArgs(args[i])
